@@ -255,6 +255,45 @@ def check_eager(ld, n, variant, res):
             return
 
 
+FALSY = [None, 0, '', [], {}, False, 0.0, ()]
+
+
+def check_falsy(ld, res):
+    """Examples whose value is None / falsy are cached like any other."""
+    n = len(FALSY)
+    for access in ('idx', 'neg', 'key', 'iter', 'slice', 'prefetch'):
+        calls = []
+
+        def up(x):
+            calls.append(x)
+            return FALSY[x]
+        keys = [f'k{i}' for i in range(n)]
+        c = ld.new(dict(zip(keys, range(n)))).map(up).cache(keep_mem_free='8 GB')
+        case = {'falsy_values': True, 'access': access}
+        res.case(('falsy', access), True)
+        got = []
+        for rep in range(3):
+            if access == 'idx':
+                got.append([c[i] for i in range(n)])
+            elif access == 'neg':
+                got.append([c[i - n] for i in range(n)])
+            elif access == 'key':
+                got.append([c[k] for k in keys])
+            elif access == 'iter':
+                got.append(list(c))
+            elif access == 'slice':
+                got.append(list(c[::-1])[::-1])
+            else:
+                got.append(list(c.prefetch(2, 3, 't')))
+        res.count('falsy_value_accesses', 3 * n)
+        if any(g != FALSY for g in got):
+            res.violation('wrong-example', case, {'got': got}, sig={'access': access,
+                                                                   'values': 'falsy'})
+        elif sorted(calls) != list(range(n)):
+            res.violation('recomputed', case, {'upstream_calls': calls},
+                          sig={'access': access, 'values': 'falsy'})
+
+
 def shards(tier, seed):
     lim = LIMITS[tier]
     out = []
@@ -296,6 +335,7 @@ def run_shard(spec, res):
         for n in range(0, 8):
             for variant in ('indexable', 'filtered', 'list', 'shuffled-once'):
                 check_eager(ld, n, variant, res)
+        check_falsy(ld, res)
     res.count('memory_polls', MEM.polls)
 
 
